@@ -57,6 +57,8 @@ structure PageInfo where
   numNulls : Option Nat  -- v2 only
   levelsLen : Nat        -- v2: rep+def byte lengths
   hasStats : Bool
+  v2Compressed : Bool := true   -- v2: is_compressed (default true)
+  bodyPos : Nat := 0
 
 /-- walk the pages of a chunk: `n` bytes starting at `pos` -/
 def walkPages (d : ByteArray) (checkCrc : Bool) : Nat → Nat → Nat → List PageInfo → Except String (List PageInfo)
@@ -89,8 +91,30 @@ def walkPages (d : ByteArray) (checkCrc : Bool) : Nat → Nat → Nat → List P
             (TVal.nat (dh.bind (·.field? 1)), 0, TVal.nat (dh.bind (·.field? 2)), none, 0, false)
         let info : PageInfo := {
           op := { isDict := ptype == 2, hdrLen := bodyPos - pos, bodyLen := comp, uncompLen := uncomp, numValues := nv, numRows := nr },
-          offset := pos, ptype := ptype, encoding := enc, crcOk := crcOk, numNulls := nn, levelsLen := ll, hasStats := st }
+          offset := pos, ptype := ptype, encoding := enc, crcOk := crcOk, numNulls := nn, levelsLen := ll, hasStats := st,
+          v2Compressed := (match (h.field? 8).bind (·.field? 7) with | some (.bool b) => b | _ => true),
+          bodyPos := bodyPos }
         walkPages d checkCrc fuel (bodyPos + comp) stop (info :: acc)
+
+/-- What the stored body says about its own uncompressed size, for the codecs whose framing
+    carries it: UNCOMPRESSED (0): the body itself; SNAPPY (1): the uvarint preamble of the block;
+    GZIP (2): ISIZE, the last four bytes. `none` = the framing does not say (zstd, brotli, lz4 raw).
+    For v2 pages the levels are stored uncompressed in front of the (optionally) compressed values. -/
+def announcedSizeOk (d : ByteArray) (codec : Nat) (p : PageInfo) : Option Bool :=
+  let lv := if p.ptype == 3 then p.levelsLen else 0
+  if lv > p.op.bodyLen || lv > p.op.uncompLen then some false else
+  let dataPos := p.bodyPos + lv
+  let dataLen := p.op.bodyLen - lv
+  let want := p.op.uncompLen - lv
+  if codec == 0 || (p.ptype == 3 && !p.v2Compressed) then some (dataLen == want)
+  else if codec == 1 then
+    if dataLen == 0 then some (want == 0) else
+    match uvarint d dataPos with
+    | .ok (n, _) => some (n == want)
+    | .error _ => some false
+  else if codec == 2 then
+    if dataLen < 18 then some false else some (le d (dataPos + dataLen - 4) 4 == want % 4294967296)
+  else none
 
 structure Report where
   problems : List String := []
@@ -150,6 +174,8 @@ def checkChunk (d : ByteArray) (footerStart : Nat) (rgi ci : Nat) (leaf : Leaf) 
       let r := r.add (model.numValues == numValues) s!"{tag}: num_values {numValues} but data pages hold {model.numValues}"
       let r := r.add (pages.all (fun p => p.crcOk != some false)) s!"{tag}: page CRC does not match the stored body"
       let r := r.add (pages.all (fun p => p.levelsLen ≤ p.op.bodyLen)) s!"{tag}: v2 level byte lengths exceed the page size"
+      let codec := TVal.nat (m.field? 4)
+      let r := r.add (pages.all (fun p => announcedSizeOk d codec p != some false)) s!"{tag}: uncompressed_page_size differs from the size the stored body decompresses to (codec {codec})"
       let r := r.add (pages.all (fun p => p.ptype == 0 || p.ptype == 2 || p.ptype == 3)) s!"{tag}: unknown page type"
       let allV2 := datas.all (·.ptype == 3)
       let r := r.add (!allV2 || datas.isEmpty || model.numRows == rgRows) s!"{tag}: v2 pages hold {model.numRows} rows, row group announces {rgRows}"
